@@ -63,6 +63,19 @@ impl TwinSys {
     }
 }
 
+impl TwinSys {
+    /// The same pair on a signal at the bottom of the f32 range (peak 2^-120).
+    pub fn tiny(cfg: &Cfg) -> Result<TwinSys, String> {
+        let props = Props::only("C17");
+        Ok(TwinSys {
+            a: Tracked::<f64>::new(cfg, Signal::NoiseTiny, props)?,
+            b: Tracked::<f32>::new(cfg, Signal::NoiseTiny, props)?,
+            k: 4.0 * k_for(cfg),
+            peak: (2.0f64).powi(-120),
+        })
+    }
+}
+
 fn res_eq(a: &Res, b: &Res) -> bool {
     match (a, b) {
         (Res::Panic(x), Res::Panic(y)) => classify(x) == classify(y),
